@@ -99,25 +99,26 @@ Definition was_str (s : str) (start end_ : Z) : str := was_chars s 0 start end_.
 
 (* the loop of FmtStr.width_aware_slice:
      for chunk in self.chunks:
-         if index.start < counter + chunk.width and index.stop > counter:
-             start = max(0, index.start - counter)
-             end = min(index.stop - counter, chunk.width)
-             if end - start == chunk.width: parts.append(chunk)
-             else: parts.append(Chunk(width_aware_slice(chunk.s, max(0, index.start - counter),
-                                                        index.stop - counter), chunk.atts))
+         if index.start < counter + chunk.width and index.stop >= counter:
+             s_part = width_aware_slice(chunk.s, index.start - counter, index.stop - counter)
+             if s_part == chunk.s: parts.append(chunk)
+             elif s_part: parts.append(Chunk(s_part, chunk.atts))
          counter += chunk.width
-         if index.stop < counter: break *)
+         if index.stop < counter: break
+   (the helper gets the UNCLAMPED offsets: index.start - counter may be negative) *)
 Fixpoint was_walk (chunks : list chunk) (start stop counter : Z) : res (list chunk) :=
   match chunks with
   | [] => Ok []
   | ch :: rest =>
       bind (chunk_width ch) (fun w =>
         let part :=
-          if (start <? counter + w) && (stop >? counter) then
-            let s := Z.max 0 (start - counter) in
-            let e := Z.min (stop - counter) w in
-            if e - s =? w then [ch]
-            else [mkChunk (was_str (c_s ch) (Z.max 0 (start - counter)) (stop - counter)) (c_a ch)]
+          if (start <? counter + w) && (stop >=? counter) then
+            let s_part := was_str (c_s ch) (start - counter) (stop - counter) in
+            if str_eqb s_part (c_s ch) then [ch]
+            else match s_part with
+                 | [] => []
+                 | _ => [mkChunk s_part (c_a ch)]
+                 end
           else [] in
         let counter := counter + w in
         if stop <? counter then Ok part
